@@ -412,7 +412,7 @@ def _direct_sum(blocks):
 
 STRUCT_MODES = ("zero_subcol0", "zero_lead0", "lead_diag_zero_lead", "zero_subcol_k", "zero_lead_k", "mask",
                 "blockdiag", "dup_blocks", "arrow", "pentadiagonal", "tridiagonal", "tridiagonal_real", "diagonal",
-                "gram", "reflector")
+                "gram", "reflector", "dilation", "dilation", "nearly_diagonal", "hollow")
 
 KINDS = ("spectrum",) * 6 + ("generic", "generic", "integer", "integer", "pure_imag_offdiag", "axis") + STRUCT_MODES
 
@@ -527,6 +527,23 @@ def hermitian_cases(draw, tier, nmin=1):
             A = herm_from_upper(ref.qmm(Y, ref.conjT(Y)))      # integer arithmetic: exact, exactly rank <= r
             if draw(st.booleans()):
                 A = A + draw(st.integers(-4, 4)) * ref.qeye(n)   # shifted: a repeated NON-zero eigenvalue
+        elif kind == "dilation":
+            # Hermitian dilation [[0, X], [X^H, 0]]: spectrum +-sigma(X) (and zeros), identically zero diagonal blocks
+            p = draw(st.integers(1, max(1, n - 1))) if n >= 2 else 1
+            A = X.copy()
+            A[:p, :p] = 0.0
+            A[p:, p:] = 0.0
+        elif kind == "hollow":
+            for i in range(n):
+                A[i, i] = 0.0
+        elif kind == "nearly_diagonal":
+            # tiny but non-zero coupling: off-diagonal entries scaled by 1e-6 .. 1e-15 relative to the diagonal
+            f = draw(st.sampled_from([1e-6, 1e-9, 1e-11, 1e-13, 1e-15]))
+            off = ~np.eye(n, dtype=bool)
+            A[off] = A[off] * f
+            d = draw(st.lists(st.integers(-8, 8), min_size=n, max_size=n, unique=True))
+            for i in range(n):
+                A[i, i] = [float(d[i]) + 0.5, 0, 0, 0]
         elif kind == "reflector":
             uvec = draw(hnp.arrays(np.float64, (n, 4), elements=gen.small_ints(), fill=st.nothing()))
             A = gen.make_hermitian(gen.householder(uvec))       # eigenvalues -1 (once) and +1 (n-1 times)
